@@ -29,6 +29,8 @@ CONSTANTS Structs,   \* struct name -> sequence of fields [id, name, t]
           Fixes      \* which revision of the code layer B transcribes (probed on the real code by the check):
                      \*   "negid"      fieldMap accepts negative field ids (before: index out of range)
                      \*   "prefixdrop" a complete path drops the children a longer path left at its node
+                     \*   "getpathfix" GetPath of ".*" takes the first field (before: nil dereference)
+                     \*   "existfix"   GetPath treats a mask without type like a nil mask
 
 (***************************************************************************)
 (* Data.                                                                   *)
@@ -338,6 +340,56 @@ WalkBFrom(n, pos, j) ==
        ELSE (IF AllOf(q.m) THEN 3 ELSE 2) * Pow5(j) + WalkBFrom(q.m, pos, j + 1)
 WalkB(n, pos) == WalkBFrom(n, pos, 1)
 
+
+(* GetPath / PathInMask: walks the trie along a query path; TRUE = in mask, *)
+(* "P" = the call panics.  Result is one of "1", "0", "P".                 *)
+RECURSIVE GP(_, _, _)
+RECURSIVE GPElems(_, _, _, _, _)
+\* the element loop of a query's [...] / {...}: returns [r |-> "" (go on) | "0" | "P", next |-> sub mask]
+GPElems(cur, es, i, next, isList) ==
+  IF i > Len(es) THEN [r |-> "", next |-> next]
+  ELSE LET el == es[i] IN
+       IF AllOf(cur) THEN GPElems(cur, es, i + 1, next, isList)
+       ELSE IF el.t = "any" THEN [r |-> "0", next |-> next]
+       ELSE IF el.t = "int" THEN
+            (IF ~isList /\ cur.typ # "IntMap" THEN [r |-> "0", next |-> next]
+             ELSE LET q == Query(cur, St("i", el.n, "")) IN
+                  IF ~q.ex THEN [r |-> "0", next |-> next] ELSE GPElems(cur, es, i + 1, q.m, isList))
+       ELSE IF el.t = "str" /\ ~isList THEN
+            (IF cur.typ # "StrMap" THEN [r |-> "0", next |-> next]
+             ELSE LET q == Query(cur, St("s", 0, el.s)) IN
+                  IF ~q.ex THEN [r |-> "0", next |-> next] ELSE GPElems(cur, es, i + 1, q.m, isList))
+       ELSE [r |-> "0", next |-> next]
+GP(cur, segs, ty) ==
+  IF segs = <<>> THEN "1"
+  ELSE IF IsNil(cur) \/ ("existfix" \in Fixes /\ ~ExistOf(cur)) THEN "1"     \* "empty fm for path means IN MASK"
+  ELSE
+  LET sg == Head(segs)
+      rest == Tail(segs)
+  IN
+  IF sg.k \in {"fname", "fid", "fany"} THEN
+     IF ty.k # "struct" \/ cur.typ # "Struct" THEN "0"
+     ELSE IF sg.k = "fany" THEN
+          (IF ~AllOf(cur) THEN "0"
+           ELSE IF "getpathfix" \notin Fixes THEN "P"                        \* f == nil; f.GetID()
+           ELSE LET f == Structs[ty.name][1]
+                    q == Query(cur, St("f", f.id, ""))
+                IN IF q.p THEN "P" ELSE IF ~q.ex THEN "0" ELSE GP(q.m, rest, f.t))
+     ELSE LET i == FieldIx(ty.name, sg) IN
+          IF i = 0 THEN "0"
+          ELSE LET f == Structs[ty.name][i]
+                   q == Query(cur, St("f", f.id, ""))
+               IN IF q.p THEN "P" ELSE IF ~q.ex THEN "0" ELSE GP(q.m, rest, f.t)
+  ELSE IF sg.k = "idx" THEN
+     IF ty.k # "list" \/ cur.typ # "List" THEN "0"
+     ELSE LET lp == GPElems(cur, sg.es, 1, cur.all, TRUE) IN
+          IF lp.r # "" THEN lp.r ELSE GP(lp.next, rest, ty.e)
+  ELSE
+     IF ~IsMap(ty) \/ cur.typ \notin {"IntMap", "StrMap", "Scalar"} THEN "0"
+     ELSE LET lp == GPElems(cur, sg.es, 1, cur.all, FALSE) IN
+          IF lp.r # "" THEN lp.r ELSE GP(lp.next, rest, ty.e)
+\* PathInMask(root, "$" ...): the root token is skipped (a nil / unset root answers "in mask" before that)
+PimB(root, expr) == GP(root, expr, RootTy)
 ----------------------------------------------------------------------------
 (***************************************************************************)
 (* JSON transfer image (marshalRec / TransferFrom).  A document node is    *)
@@ -423,21 +475,23 @@ Spec == Init /\ [][Next]_vars
 JoinWalksA(M, black) == LET W == Walks IN [i \in 1..Len(W) |-> WalkA(M, black, W[i])]
 JoinWalksB(n) == LET W == Walks IN [i \in 1..Len(W) |-> WalkB(n, W[i])]
 JoinPimsA(M) == LET P == Pims IN [i \in 1..Len(P) |-> IF PimA(M, P[i]) THEN 1 ELSE 0]
+JoinPimsB(n) == LET P == Pims IN [i \in 1..Len(P) |-> LET r == PimB(n, P[i]) IN IF r = "1" THEN 1 ELSE IF r = "0" THEN 0 ELSE 4]
 
 AllCode(b) == IF b THEN 3 ELSE 2
 
 (* B => A for one state, given A's outcome class oa and the answers of both *)
 (* layers (computed once by the caller): where A prescribes the outcome, B *)
 (* has it.                                                                 *)
-RefinesWith(oa, aall, aw, ball, bw) ==
+RefinesWith(oa, aall, aw, ap, ball, bw, bp) ==
   CASE oa = "E" -> berr # ""
-    [] oa = "ok" -> berr = "" /\ ball = aall /\ bw = aw
+    [] oa = "ok" -> berr = "" /\ ball = aall /\ bw = aw /\ (ap # <<>> => bp = ap)
     [] OTHER -> TRUE
 RefinesHere ==
   LET ex == Exprs(hist)
       M == PathSet(ex)
   IN RefinesWith(OutcomeA(ex), AllCode(AllAt(M, <<>>)), JoinWalksA(M, mode = "B"),
-                 AllCode(AllOf(trie)), JoinWalksB(trie))
+                 IF mode = "W" /\ M # {} THEN JoinPimsA(M) ELSE <<>>,
+                 AllCode(AllOf(trie)), JoinWalksB(trie), JoinPimsB(trie))
 
 (* The JSON image read back answers every query like the trie.  (That the  *)
 (* image is a function of the path SET is checked on the emitted cases:    *)
